@@ -45,6 +45,9 @@ type Contract struct {
 	Lemmas   []string
 	Pos      string
 	Decreases *Clause
+	Opaque   bool   // spec function used as an uninterpreted function unless the unit reveals it
+	OpaqueAt bool   // (b []byte, p int, ...) -> UF(bytes of b, off(b)+p, ...)
+	Extent   string // opaque-at function giving the number of bytes the value depends on (frame axiom)
 }
 
 // parseContracts reads //@ blocks from the zz_verif_contracts*.go files of a package.
@@ -167,6 +170,13 @@ func (p *Program) contractLine(pk *packages.Package, cur **Contract, line, pos s
 		c.Trusted = false
 	case "pure":
 		c.Pure = true
+	case "opaque":
+		c.Opaque = true
+		if strings.TrimSpace(rest) == "at" {
+			c.OpaqueAt = true
+		}
+	case "extent":
+		c.Extent = strings.TrimSpace(rest)
 	case "uses":
 		c.Lemmas = append(c.Lemmas, strings.Fields(rest)...)
 	case "loop":
@@ -758,7 +768,7 @@ func (e *evalEnv) methodOf(t types.Type, name string) *ssa.Function {
 
 func (e *evalEnv) quant(kind string, n *ast.CallExpr) *Term {
 	c := e.x.C
-	if len(n.Args) == 4 {
+	if len(n.Args) == 4 || len(n.Args) == 5 {
 		id, ok := n.Args[0].(*ast.Ident)
 		if !ok {
 			e.fail(n, "%s: first argument must be an identifier", kind)
@@ -769,10 +779,15 @@ func (e *evalEnv) quant(kind string, n *ast.CallExpr) *Term {
 		inner := e.bind(id.Name, Value{T: types.Typ[types.Int], L: []*Term{v}})
 		body := inner.evalBool(n.Args[3])
 		rng := c.And(c.BVCmp("bvsle", lo, v), c.BVCmp("bvslt", v, hi))
-		if kind == "forall" {
-			return c.Forall([]*Term{v}, c.Implies(rng, body))
+		var pats []*Term
+		if len(n.Args) == 5 {
+			pv := inner.eval(n.Args[4])
+			pats = append(pats, pv.L[0])
 		}
-		return c.Exists([]*Term{v}, c.And(rng, body))
+		if kind == "forall" {
+			return c.Forall([]*Term{v}, c.Implies(rng, body), pats...)
+		}
+		return c.Exists([]*Term{v}, c.And(rng, body), pats...)
 	}
 	if len(n.Args) == 3 {
 		// forall(x, T, body)
